@@ -61,3 +61,12 @@ package cache
 //@   props C17
 //@   safety off
 //@   ensures [C17:live-references-keep-the-value] old(n.ref) != 1 ==> (calls("(*Node).callFinalizer") == old(calls("(*Node).callFinalizer")) && n.value == old(n.value))
+
+// Evicting a namespace only takes the nodes out of the replacement policy: it holds no reference of its own on them
+// (Cache.Evict does: its lookup took one), so it must not drop one - a value still held through a handle would be
+// finalised under its holder.
+//@ func (*Cache).EvictNS
+//@   props C17
+//@   safety off
+//@   nocall [C17:evicting-a-namespace-drops-no-reference-it-does-not-hold] (*Node).unRefInternal
+//@   nocall [C17:evicting-a-namespace-drops-no-reference-it-does-not-hold-2] (*Node).unRefExternal
